@@ -38,6 +38,7 @@ import (
 	dgen "verif/harness/internal/drive/gennaro"
 	dhjky "verif/harness/internal/drive/hjky"
 	"verif/harness/internal/drive/keys"
+	"verif/harness/internal/tamper"
 	dl17 "verif/harness/internal/drive/lindell17"
 	dl17dkg "verif/harness/internal/drive/lindell17dkg"
 	dl22 "verif/harness/internal/drive/lindell22"
@@ -250,7 +251,7 @@ func adapters(tier string) []*adapter {
 		{name: "aor", modelled: true, run: runAor},
 		{name: "lindell17", run: runL17, noParallel: true},
 		// 3072-bit Paillier keys are generated inside the protocol: thorough tier only
-		{name: "lindell17dkg", run: runL17Dkg, noParallel: true, thoroughOnly: true},
+		{name: "lindell17dkg", run: runL17Dkg, noParallel: true, thoroughOnly: true, rank: rankL17Dkg},
 		{name: "cggmp21", run: runCggmp, noParallel: true},
 	}
 }
@@ -738,4 +739,27 @@ func runL17Dkg(seed int64, label map[sharing.ID]string, hook drive.Hook) *outcom
 		return bad, returned
 	}
 	return o
+}
+
+// rankL17Dkg: the rounds after the Paillier key generation (3..8) are where a run is expensive and
+// where the per-component vectors live, so they are sampled FIRST: array-length extend (a copy of the
+// last element appended), then truncate, on every array of the messages of rounds >= 3 (outermost
+// arrays first), then one value flip per later round; the cheap round-1/2 probes come after.
+func rankL17Dkg(m *mutation) string {
+	if m.key.round < 3 || strings.Contains(m.path, "^") {
+		return ""
+	}
+	depth := strings.Count(m.path, "[")
+	if depth > 8 {
+		depth = 8
+	}
+	switch {
+	case m.kind == tamper.KArrLen && m.op.Kind == tamper.OpExtend:
+		return fmt.Sprintf("!0%d%d", depth, m.key.round)
+	case m.kind == tamper.KArrLen && m.op.Kind == tamper.OpTruncate:
+		return fmt.Sprintf("!1%d%d", depth, m.key.round)
+	case m.kind == tamper.KBytes && m.op.Kind == tamper.OpFlip && depth <= 1:
+		return fmt.Sprintf("!2%d%d", depth, m.key.round)
+	}
+	return ""
 }
